@@ -152,8 +152,23 @@ def check_joinsplit(ctx, s):
     """from_parts then parts: same name, same params, value text that decodes to the same value"""
     from icalendar.parser import Contentline, Parameters
     from icalendar.prop import vText, vUri
-    for kind, val in (('uri', vUri(s)), ('text', vText(s))):
+    # parameter values of the domain (no double quote, no control characters), hostile ones included
+    pv = ''.join(c for c in s if c != '"' and ord(c) >= 32 and ord(c) != 127)
+    for kind, val in (('uri', vUri(s)), ('text', vText(s)), ('text-hostile-param', vText(s))):
         p = Parameters({'K': 'a b', 'L': ['x', 'y,z']})
+        if kind == 'text-hostile-param':
+            # TEXT goes through raw_value(): it must come back whatever the parameters hold
+            p = Parameters({'K': pv, 'L': ['x', pv]})
+            try:
+                cl = Contentline.from_parts('X-NAME', p, val)
+                dec = str(vText.from_ical(cl.raw_value()))
+            except (AssertionError, UnicodeEncodeError):
+                continue
+            want = s.replace('\\N', '\n').replace('\r\n', '\n')
+            if dec != want:
+                ctx.violation('joinsplit-value', {'kind': kind, 's': s},
+                              f'TEXT behind parameters K={pv!r} decodes to {dec!r}, expected {want!r}')
+            continue
         try:
             cl = Contentline.from_parts('X-NAME', p, val)
         except (AssertionError, UnicodeEncodeError):
